@@ -26,6 +26,7 @@ type c20State struct {
 	mode        string
 	ante        *c20Ante
 	priv        *c20Priv
+	stored      *c20Stored
 	trace       []string // op lines of the current trace (for replays)
 	hdr         []string // reset + header lines of the current trace
 	seq         []string // op-kind/outcome sequence of the trace (class key)
@@ -35,6 +36,8 @@ type c20State struct {
 	extAllDone  bool
 	pstats      map[string]int    // per-kind counters over all priv traces
 	ctrlErr     map[string]string // last dry-run error per kind
+	extHit      map[string]bool   // governance-only types probed with content the authority gets accepted
+	extMiss     map[string]string // … and those whose content the authority does not get accepted (last error)
 }
 
 func c20Hash(s string) string {
@@ -67,11 +70,15 @@ func (s *c20State) exec(line string) string {
 			s.ante = newC20Ante(s.share)
 		case "priv":
 			s.priv = newC20Priv(s)
+		case "stored":
+			s.stored = newC20Stored(s)
 		}
 		return "ok"
 	case "ty", "xo":
 		s.hdr = append(s.hdr, line)
 		return "ok"
+	case "stored":
+		return s.execStored(line, f)
 	case "rtx":
 		if s.ante == nil {
 			return "bad-op"
@@ -489,6 +496,9 @@ func TestC20(t *testing.T) {
 
 	// ---- part 1b: every route of NewAnteHandler (c20_routes_test.go)
 	c20RouteTraces(s, run, startAnte)
+
+	// ---- part 1c: stored proposals (c20_stored_test.go)
+	c20StoredTraces(s, run)
 
 	// ---- part 2: authority / owner guards
 	nTraces := r.N(24, 300)
